@@ -1,2 +1,11 @@
-(* C05 *)
-From WaxModel Require Import Base.
+(* C05 -- Building and querying a glob is total. *)
+From WaxModel Require Import Base Token Variance.
+From WaxProofs Require Import AlgebraFacts.
+
+(* after the repair the conjunction of bounded ranges never reaches unreachable!() nor its expect:
+   on valid ranges it returns a valid range, or the checked addition overflows *)
+Theorem C05_range_conjunction_total :
+  forall a b, bvr_ok a -> bvr_ok b ->
+    (exists r, bvr_conj a b = Ok r /\ bvr_ok r) \/ bvr_conj a b = Panic PanicOverflow.
+Proof. exact bvr_conj_total. Qed.
+Print Assumptions C05_range_conjunction_total.
